@@ -1,5 +1,7 @@
 import Props.C20
 #print axioms Webauthn.Props.C20.auth_mono
+#print axioms Webauthn.Props.C20.reg_mono
+#print axioms Webauthn.Props.C20.algAllowed_mono
 #print axioms Webauthn.Props.C20.origins_superset
 #print axioms Webauthn.Props.C20.single_as_list
 #print axioms Webauthn.Props.C20.single_into_list
